@@ -116,6 +116,9 @@ class Routing:
                     if m.devs[k]._collect_parts:
                         self.sink_order[k] = []
                 ctx.count('fresh_collected_lists')
+            if op['op'] in ('detach', 'reattach', 'rewire_many'):
+                # (a connection change restarts the device's idle clock)
+                rewired.add(op['target'])
             if op['op'] == 'rewire':
                 rewired.add(op['target'])
                 if out == 'added':
